@@ -14,3 +14,29 @@ pub fn padded(s: &str, width: usize, align: u8, truncate: bool) -> String {
 pub fn text_cols(s: &str) -> usize {
     measure_text_width(s)
 }
+
+/// The frame format_state produces for a bar state built from public values, together with the
+/// state's getters evaluated right after (same frozen state): (is_bar_line, text) per line.
+pub struct Frame {
+    pub lines: Vec<(bool, String)>,
+    pub fraction: f32,
+    pub per_sec: f64,
+    pub elapsed: std::time::Duration,
+    pub eta: std::time::Duration,
+    pub duration: std::time::Duration,
+}
+#[allow(clippy::too_many_arguments)]
+pub fn frame(style: &ProgressStyle, len: Option<u64>, pos: u64, msg: &str, prefix: &str, tick: u64, status: u8, width: u16) -> Frame {
+    let st = crate::state::verif_hooks::mk_state(len, pos, msg, prefix, tick, status, style.tab_width);
+    let mut lines = Vec::new();
+    style.format_state(&st, &mut lines, width);
+    let lines = lines
+        .into_iter()
+        .map(|l| match l {
+            crate::draw_target::LineType::Bar(s) => (true, s),
+            crate::draw_target::LineType::Text(s) => (false, s),
+            crate::draw_target::LineType::Empty => (false, String::new()),
+        })
+        .collect();
+    Frame { lines, fraction: st.fraction(), per_sec: st.per_sec(), elapsed: st.elapsed(), eta: st.eta(), duration: st.duration() }
+}
